@@ -69,6 +69,27 @@ fn seqx_property(id: &str, tier: Tier) -> i32 {
     };
     let out = props::run_suites(&rep, &suites, deadline, cap);
     let extra = props::extra_cases(id, &rep);
+    let mut sched_cov = json!(null);
+    if id == "C03" {
+        // "never concurrently / in emission order" under two or three shell threads: the drivers of
+        // the scheduler exploration (C08) in which events are emitted while another thread is
+        // inside the core
+        let scns: Vec<_> = sched::scenarios(tier == Tier::Thorough)
+            .into_iter()
+            .filter(|s| ["S5", "S6", "S13", "S3 "].iter().any(|p| s.name.starts_with(p)))
+            .collect();
+        let deadline = mc_kit::Deadline::new(tier.pick(30.0, 400.0));
+        let results = mc_kit::par_map(&scns, |_, s| sched::explore(s, tier.pick(2, 3), tier.pick(40_000, 2_000_000), &deadline));
+        let mut per = vec![];
+        for r in &results {
+            per.push(json!({"scenario": r.name, "executions": r.executions, "executions_by_preemption_bound": r.by_bound,
+                "preemption_bound_completed": r.bound_completed, "distinct_event_logs": r.distinct_logs}));
+            for (key, what, replay) in &r.violations {
+                rep.violation(mc_kit::Violation { key: format!("concurrent/{key}"), what: what.clone(), replay: replay.clone(), size: what.len() });
+            }
+        }
+        sched_cov = json!({"method": "controlled scheduler over real threads (engine sched, see C08): every interleaving with <= 2 (thorough 3) preemptions; oracle: events of one task applied in emission order, update never entered concurrently, outcome equals a sequential order", "drivers": per});
+    }
     let mut law_cov = json!(null);
     if id == "C04" {
         let laws = laws::laws(tier == Tier::Thorough);
@@ -121,6 +142,7 @@ fn seqx_property(id: &str, tier: Tier) -> i32 {
         "samples": out.samples,
         "dedicated_cases": extra,
         "laws": law_cov,
+        "concurrent_event_application": sched_cov,
     });
     rep.finish(
         "model_checking",
